@@ -39,6 +39,8 @@ type Req struct {
 	Inputs []string `json:"inputs"`
 	NoCirc bool     `json:"nocirc"`
 	SSA    bool     `json:"ssa"`
+	GIn    []string `json:"gin"`
+	EIn    []string `json:"ein"`
 }
 
 type IOArgJ struct {
@@ -342,6 +344,37 @@ func evalBuilder(req *Req) *Resp {
 	return &Resp{OK: true, Results: res}
 }
 
+// circFile parses a serialized circuit file of the repository with the real
+// parser (ParseMPCLC) and dumps it; with inputs it also runs the real Compute.
+func circFile(req *Req) (resp *Resp) {
+	defer func() {
+		if p := recover(); p != nil {
+			resp = &Resp{Err: fmt.Sprintf("panic: %v", p)}
+		}
+	}()
+	f, err := os.Open(req.File)
+	if err != nil {
+		return &Resp{Err: err.Error()}
+	}
+	defer f.Close()
+	circ, err := circuit.ParseMPCLC(f)
+	if err != nil {
+		return &Resp{Err: "parse: " + err.Error()}
+	}
+	r := dump(circ)
+	if len(req.Inputs) > 0 {
+		r.Results, err = compute(circ, req.Inputs)
+		if err != nil {
+			return &Resp{Err: "compute: " + err.Error()}
+		}
+	}
+	if req.NoCirc {
+		r.Gates = nil
+		r.Levels = nil
+	}
+	return r
+}
+
 func main() {
 	in := bufio.NewReaderSize(os.Stdin, 1<<20)
 	out := bufio.NewWriterSize(os.Stdout, 1<<20)
@@ -362,6 +395,12 @@ func main() {
 					r = evalBuilder(&req)
 				case "compile":
 					r = compile(&req)
+				case "stream":
+					enc.Encode(stream(&req))
+					out.Flush()
+					continue
+				case "circfile":
+					r = circFile(&req)
 				case "testfile":
 					v, e := testFile(&req)
 					if e != nil {
